@@ -26,7 +26,7 @@ RULE = ("78 builtin models (multiplicity models at several multiplicities, P@S t
 ASSUMPTIONS = ["bumps is replaced by a minimal stub of bumps.parameter (Parameter.default boxes a value)",
                "2-D data for DirectModel/bumps carry no resolution columns (dqx_data = None) so that no smearing is applied"]
 REQUIRED_MONITORS = ["interfaces_agree", "selection_matches_reference_index", "unknown_name_refused"]
-REQUIRED_BUCKETS = {"quick": ["bumps:after-simulate-data", "bumps:attributes-rebound", "select:limits-equal-to-pixel-radii", "iface:kernel", "iface:DirectModel", "iface:keyword", "iface:sasview", "iface:bumps",
+REQUIRED_BUCKETS = {"quick": ["bumps:after-simulate-data", "bumps:attributes-rebound", "bumps:distribution-type-rebound", "select:limits-equal-to-pixel-radii", "iface:kernel", "iface:DirectModel", "iface:keyword", "iface:sasview", "iface:bumps",
                               "dim:1d", "dim:2d", "multiplicity", "product", "array_distribution", "select:mask",
                               "select:qlimits", "select:nan", "refuse:misspelt", "refuse:foreign", "refuse:pd_suffix", "refuse:bad_attribute",
                               "dispersity-on-vector-element:1d", "refuse:repeated-on-one-object", "sasview:clone-edited",
@@ -253,6 +253,14 @@ def run_agree(case, rec):
             if lo_ <= newv <= hi_:
                 setattr(bm2, n_, _BP(newv, name=n_))
                 up2[n_] = newv
+        typed = [kk_[:-8] for kk_ in up if kk_.endswith("_pd_type") and hasattr(bm2, kk_)]
+        if typed:
+            # another distribution type chosen after construction (model.radius_pd_type = 'schulz')
+            newt = [t_ for t_ in ("schulz", "lognormal", "gaussian") if t_ != up[typed[0] + "_pd_type"]][int(rng.integers(2))]
+            if i.parameters[typed[0]].type != "orientation":
+                setattr(bm2, typed[0] + "_pd_type", newt)
+                up2[typed[0] + "_pd_type"] = newt
+                rec.bucket("bumps:distribution-type-rebound")
         bm2.scale = _BP(float(up2.get("scale", 1.0))*1.5, name="scale")
         up2["scale"] = float(up2.get("scale", 1.0))*1.5
         kref2 = np.asarray(direct_model.call_kernel(kern, dict(up2), cutoff=cutoff), float)
